@@ -54,6 +54,10 @@ end Chunk
 
 abbrev Cq := List Chunk
 
+/-- well-formed queue: offsets inside the data, files at least as long as when they were queued
+    (hypothesis of the write-path theorems: the files served are not truncated meanwhile) -/
+def CqWF (q : Cq) : Prop := ∀ c ∈ q, c.WF
+
 /-- the byte string a queue stands for -/
 def cqFlat (q : Cq) : Bytes := q.flatMap Chunk.rem
 
@@ -74,7 +78,7 @@ def removeFinished : Cq → Cq
 /-- what one write()/writev()/sendfile() call returns -/
 inductive WrRes where
   | ok (n : Nat)        -- the kernel accepts min(n, requested) bytes
-  | eagain | eintr | epipe | econnreset | einval | eio
+  | eagain | eintr | epipe | econnreset | enotconn | einval | eio
 deriving Repr, DecidableEq
 
 inductive Sys where
@@ -97,7 +101,7 @@ def popRes : List WrRes → WrRes × List WrRes
   | [] => (.eagain, [])
   | r :: t => (r, t)
 
-/-- network_write_error(): EAGAIN/EINTR -3, EPIPE/ECONNRESET -2, anything else -1 -/
+/-- network_write_error(): EAGAIN/EINTR -3, EPIPE/ECONNRESET -2, anything else (ENOTCONN, EINVAL, EIO …) -1 -/
 def writeErrRc : WrRes → Int
   | .eagain | .eintr => -3
   | .epipe | .econnreset => -2
@@ -172,7 +176,7 @@ def fileSendfile (st : NwSt) (maxBytes : Nat) : Int × NwSt × Nat :=
           (if max' = 0 then -3 else if wr = nbytes then 0 else -3, st2, max')
         else (-1, { st1 with faults := st1.faults + fl }, maxBytes)   -- "file truncated"
       | .eagain | .eintr => (-3, { st1 with faults := st1.faults + 1 }, maxBytes)
-      | .epipe | .econnreset => (-2, { st1 with faults := st1.faults + 1 }, maxBytes)
+      | .epipe | .econnreset | .enotconn => (-2, { st1 with faults := st1.faults + 1 }, maxBytes)
       | .einval => fileNoMmap { st1 with faults := st1.faults + 1 } maxBytes
       | .eio => (-1, { st1 with faults := st1.faults + 1 }, maxBytes)
   | _ => (-1, st, maxBytes)
